@@ -60,6 +60,22 @@ PLANS = {
                 "and agree. distinct_nontrivial = distinct definitions in which some code point is covered by >=2 lines",
         "assumptions": COMMON_ASSUMPTIONS + ["only definitions that load are judged (the property says so)"],
     },
+    "C08": lambda tier: {
+        "level": "exploration",
+        "stages": [main_stage(30, 240, tier)],
+        "require": ["edit_batches", "histories_with_several_batches", "map_positions_checked", "built_positions_checked",
+                    "morpheme_offsets_checked", "tokenizations_rewritten_multibyte"],
+        "rule": "part A: seeded originals (1-12 chars mixing 1-4 byte characters) x histories of 1-4 edit batches on a real InputBuffer "
+                "through with_editor (sorted non-overlapping non-empty ranges on char boundaries at start/middle/end/adjacent, replaced by "
+                "empty/equal/shorter/longer strings through replace_ref/char/char_iter/own; histories emptying the text are cut); after "
+                "every batch the map position->original is checked at every char boundary (monotone, start->0, end->len, char boundaries, "
+                "each unreplaced character -> its own start, tracked by provenance), after build() the code-point table and random query "
+                "ranges are checked. part B: whole tokenizations (random worlds incl. all input-text plugins): begin_c/end_c vs code points "
+                "before begin/end and code-point slicing vs surface. distinct_nontrivial = distinct histories with >=2 batches or a "
+                "length-changing edit, plus distinct rewritten multi-byte tokenizations",
+        "assumptions": COMMON_ASSUMPTIONS + ["zero-width insertions are not generated (not covered by the statement)",
+                                             "the first character after a deletion at the very start may map to 0 (start->start wins)"],
+    },
 }
 
 
